@@ -241,7 +241,12 @@ def gen_plan(rng, tier, idx, opts):
                     j = rng.randrange(len(live))
                     if j != i:
                         ops.append({"op": "merge_all", "dst": h, "src": live[j]})
-        return {"world": "results", "level": "set", "mode": mode, "names": names, "ops": ops, "accumulate": rng.random() < 0.4}
+        out = {"world": "results", "level": "set", "mode": mode, "names": names, "ops": ops, "accumulate": rng.random() < 0.4}
+        if rng.random() < 0.5:
+            # what users call their results: short names, names that contain or are contained in other names
+            pool = rng.sample(["ber", "ser", "r", "p", "s", "e", "n", "m", "num", "rep", "reps", "skipped", "num_skipped", "lala", "x", "ids", "errors"], len(names))
+            out["alias"] = dict(zip(names, pool))
+        return out
     # combine
     names = rng.sample(["SUM", "RATIO", "MISC", "CHOICE", "CHOICE3"], rng.randint(1, 4))
     nunp = rng.choice([1, 1, 2])
@@ -397,6 +402,11 @@ def _set_snapshot(s):
 
 def _exec_set(plan, res, log, pid, mode):
     names = plan["names"]
+    alias = plan.get("alias") or {}
+
+    def rn(nm_):
+        """The NAME a result of this type carries in the sets (users call their results 'ber', 'r', 'num', ...)."""
+        return alias.get(nm_, nm_)
     sets, model = {}, {}       # model: set id -> {name: [obs_list per slot]}
     skipm = {}                 # set id -> value of the runner's 'num_skipped_reps' counter (None: absent)
     donated = set()
@@ -417,13 +427,13 @@ def _exec_set(plan, res, log, pid, mode):
                         break
                     o = op["obs"][nm]
                     if is_choice(nm):
-                        s.add_result(Result.create(nm, TYPES[nm], o[0], CHOICE_NUMS[nm], accumulate_values=acc_))
+                        s.add_result(Result.create(rn(nm), TYPES[nm], o[0], CHOICE_NUMS[nm], accumulate_values=acc_))
                     elif acc_:
-                        s.add_result(Result.create(nm, TYPES[nm], obs_val(o[0]), o[1] if nm == "RATIO" else 0, accumulate_values=True))
+                        s.add_result(Result.create(rn(nm), TYPES[nm], obs_val(o[0]), o[1] if nm == "RATIO" else 0, accumulate_values=True))
                     elif nm == "RATIO":
-                        s.add_new_result(nm, TYPES[nm], o[0], o[1])
+                        s.add_new_result(rn(nm), TYPES[nm], o[0], o[1])
                     else:
-                        s.add_new_result(nm, TYPES[nm], obs_val(o[0]))
+                        s.add_new_result(rn(nm), TYPES[nm], obs_val(o[0]))
                 sets[op["set"]] = s
                 model[op["set"]] = {nm: [[op["obs"][nm]]] for nm in names}
                 skipm[op["set"]] = None if sk is None else sk["v"]
@@ -492,9 +502,9 @@ def _exec_set(plan, res, log, pid, mode):
                 # append shares the result OBJECTS by design, but the donor keeps its own lists: what is appended to the
                 # receiver later must not show up in the donor
                 for nm, slots in model[a].items():
-                    if len(s[nm]) != len(slots):
+                    if len(s[rn(nm)]) != len(slots):
                         add_violation(res, pid + ".operand_mutated", step, "the set that donated its results through append_all_results now holds %d '%s' results instead of %d" % (
-                            len(s[nm]), nm, len(slots)), {"op": kind, "level": "set", "type": "donor_list"})
+                            len(s[rn(nm)]), nm, len(slots)), {"op": kind, "level": "set", "type": "donor_list"})
                         break
                 if res["status"] != "ok":
                     break
@@ -506,7 +516,7 @@ def _exec_set(plan, res, log, pid, mode):
                 break
             for nm, slots in model[a].items():
                 try:
-                    lst = s[nm]
+                    lst = s[rn(nm)]
                 except KeyError:
                     add_violation(res, pid + ".grouping", step, "set %s lost result %s" % (a, nm), {"op": kind, "level": "set"})
                     break
@@ -531,7 +541,7 @@ def _exec_set(plan, res, log, pid, mode):
                 break
         if res["status"] != "ok":
             break
-        log.add("state", [(a, sorted((nm, [stats_of(r, nm) for r in s[nm]]) for nm in model[a])) for a, s in sorted(sets.items()) if a not in donated])
+        log.add("state", [(a, sorted((nm, [stats_of(r, nm) for r in s[rn(nm)]]) for nm in model[a])) for a, s in sorted(sets.items()) if a not in donated])
     res["nontrivial"] = merges >= 1
     res["state_keys"].append("set|%s|%s|ops=%s" % ("+".join(sorted(names)), mode, "".join(o["op"][0] for o in plan["ops"])[:8]))
 
